@@ -149,6 +149,11 @@ func inModule(fn *ssa.Function) bool {
 	if fn.Parent() != nil {
 		return inModule(fn.Parent())
 	}
+	// synthetic wrappers (promoted methods, bound methods, thunks) of module methods
+	if obj := fn.Object(); obj != nil && obj.Pkg() != nil {
+		pp := obj.Pkg().Path()
+		return pp == modPath || strings.HasPrefix(pp, modPath+"/")
+	}
 	return false
 }
 
@@ -156,6 +161,11 @@ func pkgPathOf(fn *ssa.Function) string {
 	for fn != nil {
 		if fn.Pkg != nil {
 			return fn.Pkg.Pkg.Path()
+		}
+		if fn.Synthetic != "" && fn.Parent() == nil && fn.Origin() == nil {
+			if obj := fn.Object(); obj != nil && obj.Pkg() != nil {
+				return obj.Pkg().Path()
+			}
 		}
 		if o := fn.Origin(); o != nil && o != fn {
 			fn = o
